@@ -181,8 +181,8 @@ def r6(rep, prog):
     body = get_body(rep, prog, R, RD + "reload")
     if body is None:
         return
-    STORE = prog.names(r"^arc_swap::ArcSwapAny::<T, S>::(store|swap)$")
-    st = [Ev(b, "term", what="ArcSwap::store") for b, t in calls_to(prog, body, STORE)]
+    STORE = prog.names(r"^arc_swap::ArcSwapAny::<T, S>::(store|swap|rcu|compare_and_swap)$")
+    st = [Ev(b, "term", what="ArcSwap publish") for b, t in calls_to(prog, body, STORE)]
     cr = [Ev(b, "term", what="create_searcher") for b, t in calls_to(prog, body, {RD + "create_searcher"})]
     if not rep.check(bool(st) and bool(cr), R, "reload: anchors", "create_searcher and store found", "cannot establish: create_searcher / store missing in reload", site=body.span):
         return
